@@ -959,8 +959,10 @@ def run(ck):
         'hash function h; tie = exact correspondence with h := CPython tuple hash (Uint63 implementation hash63, also compared with '
         'PyHash.hash_ztuple)',
         'ring membership (atom.in_ring) is an input of the model (ring perception is C06)',
-        'the stereo refinement _chiral_morgan and the writer _smiles are not covered by C01 theorems beyond the writer lemmas listed in '
-        'props/C01.v: search only (writer correspondence is part of C02)',
+        'writer theorems are about coq/model/Writer.v (C02 ties it at volume; here its start atom, first child and, on small molecules, '
+        'the whole canonical string / order are re-tied): invariance of the written text under remap() is proved for injective weights when '
+        'no stereo mark is written, and conditionally on the agreement of _format_atom/_format_bond otherwise; insertion-order changes, weight '
+        'ties and the stereo refinement _chiral_morgan/__differentiation are covered by the search only',
         'canonical string / hash of str are opaque in the eq/hash theorems']
     ck.extra['rule'] = (
         'correspondence: random raw dicts for _morgan (well-formed, ghost neighbours/rows, missing rows, asymmetric, boundary labels), every '
